@@ -47,6 +47,11 @@ Definition op_tok (o : sop) : str :=
   | OSetFlag f => lit "fl" ++ dec_str f
   | OHostStart => lit "hs"
   | OHostDone t => lit "hd" ++ dec_str t
+  | OStartScheme => lit "ss"
+  | OSaveScheme => lit "vs"
+  | OStartPathSeg => lit "ps"
+  | OSavePathSeg => lit "pv"
+  | OCommitPath => lit "cp"
   | _ => lit "??"
   end.
 Fixpoint ops_str (l : list sop) : str :=
@@ -120,7 +125,57 @@ Definition expected_ops (w : setter) (u : url) (e : enc) (units : list N) : opti
   | _ => None
   end.
 
+(* parsetrace <url token>: the calls a PARSE (no base) makes on its url_serializer, for inputs that parse to a record
+   with a host, a list path and a scheme other than file: the sequence [emit_ops] of Proofs/SerializerEmit.v (repeated
+   here because the proofs are not part of the extracted model; C01_emit_repr is about exactly this sequence) *)
+Definition opt_ops_m (k : nat) (fl : N) (o : option str) : list sop :=
+  match o with Some t => [OStartPart k; OAppend t; OSavePart; OSetFlag fl] | None => [] end.
+Definition emit_ops_m (u : url) (H : host) (segs : list str) : list sop :=
+  [OStartScheme; OAppend (scheme u); OSaveScheme] ++
+  (match username u, password u with
+   | [], [] => []
+   | _, [] => [OStartPart P_USERNAME; OAppend (username u); OSavePart]
+   | _, _ => [OStartPart P_USERNAME; OAppend (username u); OSavePart; OStartPart P_PASSWORD; OAppend (password u); OSavePart]
+   end) ++
+  [OHostStart; OAppend (host_serialize H); OHostDone (host_type_num H)] ++
+  opt_ops_m P_PORT 64 (option_map dec_str (port u)) ++
+  (flat_map (fun x => [OStartPathSeg; OAppend x; OSavePathSeg]) segs ++ [OCommitPath]) ++
+  opt_ops_m P_QUERY 512 (query u) ++ opt_ops_m P_FRAGMENT 1024 (fragment u).
+
+Definition parsetrace_line (line : str) : option str :=
+  match split_spaces line with
+  | c :: args =>
+    if tok_is c "parsetrace" then
+      match args with
+      | [tu] =>
+          match parse_arg tu with
+          | Some (eu, uu) =>
+              match do_parse (spec_ops idna) eu uu None with
+              | None => Some (lit "parsetrace invalid")
+              | Some u =>
+                  match uhost u, path u with
+                  | Some H, PList segs =>
+                      if is_file u then Some (lit "parsetrace unsupported") else
+                      let ops := emit_ops_m u H segs in
+                      let r := norm_tail_m (s_r (run false (init_sst (mk_repr [] [0;0;0;0;0;0;0;0;0;0;0] 269 0) false) ops)) in
+                      (* set_flag is not virtual; path_start_state goes from an empty path of a non-special URL straight to
+                         the query / fragment state without commit_path (a no-op there: ser_pathname_raw, first case) *)
+                      let skip_cp := match segs with [] => is_some (query u) || is_some (fragment u) | _ => false end in
+                      let visible := filter (fun o => match o with OSetFlag _ => false | OCommitPath => negb skip_cp | _ => true end) ops in
+                      Some (lit "parsetrace" ++ ops_str visible ++ lit " | " ++ repr_str r ++ lit " rec=" ++ b01 (repr_eqb r (repr_of u)))
+                  | _, _ => Some (lit "parsetrace unsupported")
+                  end
+              end
+          | None => Some (lit "ERR bad-args")
+          end
+      | _ => Some (lit "ERR bad-arity")
+      end
+    else None
+  | [] => None
+  end.
+
 Definition trace_line (line : str) : option str :=
+  match parsetrace_line line with Some o => Some o | None =>
   match split_spaces line with
   | c :: args =>
     if tok_is c "settrace" then
@@ -153,5 +208,5 @@ Definition trace_line (line : str) : option str :=
       end
     else None
   | [] => None
-  end.
+  end end.
 End WithIdna.
